@@ -723,6 +723,101 @@ Theorem strategy_refresh : forall s e c s', handle_event TS.T s (e, c) = Ok s' -
 Proof. intros s e c s' H. destruct (refreshed_iff _ _ _ _ _ H) as (_ & A & B). split; assumption. Qed.
 
 
+(* ---------------- after the writer has handled an End event, the result it finishes is in the report, finalized ---------------- *)
+Lemma upd_first_names : forall X n (g : lsuite -> res (lsuite * X)) l l' x,
+  upd_first n g l = Ok (l', x) ->
+  exists pre s post s', l = pre ++ s :: post /\ g s = Ok (s', x) /\ l' = pre ++ s' :: post
+                        /\ (forall y, In y pre -> str_eqb (ls_name y) n = false) /\ str_eqb (ls_name s) n = true.
+Proof.
+  intros X n g. induction l as [|s r IH]; simpl; intros l' x H; try discriminate.
+  destruct (str_eqb (ls_name s) n) eqn:En.
+  - apply put_ok in H. destruct H as (s' & Hg & El). exists [], s, r, s'. repeat split; auto. intros y [].
+  - apply put_ok in H. destruct H as (r' & Hr & El). destruct (IH _ _ Hr) as (pre & s0 & post & s' & E1 & E2 & E3 & E4 & E5).
+    subst. exists (s :: pre), s0, post, s'. repeat split; auto. intros y [Hy|Hy]; subst; auto.
+Qed.
+
+Lemma find_first_mid : forall n pre s post, (forall y, In y pre -> str_eqb (ls_name y) n = false) -> str_eqb (ls_name s) n = true ->
+  find_first n (pre ++ s :: post) = Some s.
+Proof.
+  induction pre as [|y pre IH]; simpl; intros s post Hp Hs.
+  - rewrite Hs. reflexivity.
+  - rewrite (Hp y) by auto. apply IH; auto.
+Qed.
+
+Lemma upd_suite_get : forall X (f : lsuite -> res (lsuite * X)) p l l' x,
+  upd_suite p f l = Ok (l', x) -> (forall s s', f s = Ok (s', x) -> ls_name s' = ls_name s) ->
+  exists s s', get_suite p l = Some s /\ f s = Ok (s', x) /\ get_suite p l' = Some s'.
+Proof.
+  intros X f. induction p as [|n rest IH]; intros l l' x H Hn; [discriminate|].
+  destruct rest as [|n2 rest'].
+  - cbn [upd_suite] in H. destruct (upd_first_names _ _ _ _ _ _ H) as (pre & s & post & s' & E1 & E2 & E3 & E4 & E5). subst l l'.
+    exists s, s'. cbn [get_suite]. rewrite !find_first_mid; auto. rewrite (Hn _ _ E2). assumption.
+  - cbn [upd_suite] in H. destruct (upd_first_names _ _ _ _ _ _ H) as (pre & s & post & s' & E1 & E2 & E3 & E4 & E5). subst l l'.
+    apply put_ok in E2. destruct E2 as (u' & Hu & Es). subst s'.
+    destruct (IH _ _ _ Hu Hn) as (t & t' & G1 & G2 & G3). exists t, t'.
+    change (get_suite (n :: n2 :: rest') (pre ++ s :: post))
+      with (match find_first n (pre ++ s :: post) with None => None | Some s => get_suite (n2 :: rest') (ls_subs s) end).
+    change (get_suite (n :: n2 :: rest') (pre ++ set_ls_subs s u' :: post))
+      with (match find_first n (pre ++ set_ls_subs s u' :: post) with None => None | Some s => get_suite (n2 :: rest') (ls_subs s) end).
+    rewrite !find_first_mid; auto.
+    + rewrite WriterP.ls_subs_set_subs. auto.
+    + rewrite WriterP.ls_name_set_subs. assumption.
+Qed.
+
+Lemma upd_test_get : forall X n (f : result -> res (result * X)) l l' x,
+  upd_test n f l = Ok (l', x) -> exists r r', get_test n l = Some r /\ f r = Ok (r', x) /\ get_test n l' = Some r'.
+Proof.
+  intros X n f. induction l as [|rt r IH]; simpl; intros l' x H; try discriminate.
+  destruct (str_eqb (m_name (t_meta (snd rt))) n) eqn:En.
+  - apply put_ok in H. destruct H as (r' & Hg & El). subst l'. exists (t_result (snd rt)), r'. simpl. rewrite En. auto.
+  - apply put_ok in H. destruct H as (r' & Hr & El). subst l'. destruct (IH _ _ Hr) as (a & b & G1 & G2 & G3).
+    exists a, b. simpl. rewrite En. auto.
+Qed.
+
+Definition finalized (r : result) : Prop :=
+  r_end r <> None /\ (r_status r = Some s_passed \/ r_status r = Some s_failed).
+
+Lemma finalize_finalized : forall t r, finalized (finalize_result t r).
+Proof. intros. split; simpl; [discriminate|]. destruct (result_successful r); auto. Qed.
+
+Lemma on_suite_get : forall p (f : lsuite -> res lsuite) w w', on_suite p f w = Ok w' ->
+  (forall s s', f s = Ok s' -> ls_name s' = ls_name s) ->
+  exists s s', get_suite p (w_suites w) = Some s /\ f s = Ok s' /\ get_suite p (w_suites w') = Some s'.
+Proof.
+  intros p f w w' H Hn. unfold on_suite in H. apply drop_ok in H. apply put_ok in H. destruct H as (l' & Hu & E). subst w'.
+  destruct (upd_suite_get _ _ _ _ _ _ Hu) as (s & s' & G1 & G2 & G3).
+  - intros s s' Hs. apply pure_ok in Hs. auto.
+  - exists s, s'. apply pure_ok in G2. auto.
+Qed.
+
+Theorem end_of_result_found : forall w e w' loc, apply w e = Ok w' -> result_end_loc e = Some loc ->
+  exists r, get_result loc w' = Some r /\ finalized r.
+Proof.
+  intros w e w' loc H Hl. destruct e; simpl in Hl; inversion Hl; subst loc; clear Hl; cbn [apply] in H.
+  - (* SessionSetupEnd *) apply bind_ok_inv in H. destruct H as (o & Ho & E). inversion E; subst.
+    apply finalize_opt_ok in Ho. destruct Ho as (r & E1 & E2). subst o. eexists. split; [reflexivity|apply finalize_finalized].
+  - apply bind_ok_inv in H. destruct H as (o & Ho & E). inversion E; subst.
+    apply finalize_opt_ok in Ho. destruct Ho as (r & E1 & E2). subst o. eexists. split; [reflexivity|apply finalize_finalized].
+  - (* SuiteSetupEnd *) destruct (on_suite_get _ _ _ _ H) as (s & s' & G1 & G2 & G3).
+    + intros s s' Hs. apply bind_ok_inv in Hs. destruct Hs as (o & _ & E). inversion E. destruct s; reflexivity.
+    + apply bind_ok_inv in G2. destruct G2 as (o & Ho & E). inversion E; subst s'.
+      apply finalize_opt_ok in Ho. destruct Ho as (r & E1 & E2). subst o.
+      cbn [get_result]. rewrite G3. destruct s; simpl. eexists. split; [reflexivity|apply finalize_finalized].
+  - (* SuiteTeardownEnd *) destruct (on_suite_get _ _ _ _ H) as (s & s' & G1 & G2 & G3).
+    + intros s s' Hs. apply bind_ok_inv in Hs. destruct Hs as (o & _ & E). inversion E. destruct s; reflexivity.
+    + apply bind_ok_inv in G2. destruct G2 as (o & Ho & E). inversion E; subst s'.
+      apply finalize_opt_ok in Ho. destruct Ho as (r & E1 & E2). subst o.
+      cbn [get_result]. rewrite G3. destruct s; simpl. eexists. split; [reflexivity|apply finalize_finalized].
+  - (* TestEnd *) apply drop_ok in H. cbn [upd_result] in H. cbn [get_result].
+    destruct (split_last (node_path test)) as [[q n]|]; try discriminate.
+    apply put_ok in H. destruct H as (l' & Hu & E). subst w'. cbn [w_suites set_w_suites].
+    destruct (upd_suite_get _ _ _ _ _ _ Hu) as (s & s' & G1 & G2 & G3).
+    + intros s s' Hs. apply put_ok in Hs. destruct Hs as (ts' & _ & E). subst s'. destruct s; reflexivity.
+    + rewrite G3. apply put_ok in G2. destruct G2 as (ts' & Ht & E). subst s'.
+      destruct (upd_test_get _ _ _ _ _ _ Ht) as (r & r' & T1 & T2 & T3). inversion T2; subst r'.
+      destruct s; simpl in *. exists (finalize_result time r). split; [assumption|apply finalize_finalized].
+Qed.
+
 (* ====================================================================================================================== *)
 (* 5. crashes: the atomic save sequence never exposes anything but a complete earlier snapshot                              *)
 (* ====================================================================================================================== *)
